@@ -200,10 +200,13 @@ CLAIMED = {
         "real and complex: M(r) = M(A)^+ and the shape is swapped; the CG rule's contract is M(r) = M(A)^+ + c A^H with c exactly get_precision(dtype)*max(shape) "
         "(its explicit regulariser) and CG-from-zero on the Gram matrix as psolve. svd: the DenseSVD rule runs in the index domain over an abstract m x n operator "
         "(tall, wide, square): the dense routine is applied to the matrix of A, r = min(m,n) triplets, triplet i is (u,s,v)_sigma(i) for one sigma, sigma injective "
-        "into [0,r) (hence U Sigma V^H = A, orthonormal columns, Sigma >= 0); Identity rule entrywise.",
+        "into [0,r) (hence U Sigma V^H = A, orthonormal columns, Sigma >= 0); Identity rule entrywise. The Lanczos svd rule is PROVED from the real rule for tall, wide "
+        "and square, real and complex operators (finite-sum algebra, sympy back end): lanczos_eigs is applied to the Gram matrix A^H A / A A^H (entrywise); with its "
+        "callee contract (G W = W diag(w), W unitary, w > 0) the computed factor A V Sigma^-1 (resp. (Sigma^-1 U^H A)^H) has orthonormal columns, the sliced eigenvector "
+        "factor has orthonormal columns, Sigma = sqrt of the selected eigenvalues >= 0, and U Sigma V^H = A V_k V_k^H (resp. U_k U_k^H A).",
    design_ref="4.16",
-   note="svd(Diagonal) and the Lanczos svd rule (orthonormality, best rank-k approximation) are covered only by bounded stand-ins on the real code (sizes <= 12, all k), "
-        "labelled bounded and not counted as proved; Eckart-Young is not formalised; psolve(A^H A) A^H = A^+ and pinv of an invertible matrix are ASSUMED lemmas with "
+   note="svd(Diagonal) is covered only by a bounded stand-in on the real code; that the projection on the selected singular subspace is the BEST rank-k approximation is "
+        "Eckart-Young (ASSUMED, sampled by the bounded stand-in of the Lanczos rule, sizes <= 12, all k); psolve(A^H A) A^H = A^+ and pinv of an invertible matrix are ASSUMED lemmas with "
         "citations; the CG regulariser is part of the contract (the property holds up to c = eps*max(shape)); the LOBPCG svd rule is outside the statement's algorithms.",
    technique="contract-stubbed proxy execution of the real rules (ALG for pinv, index domain with ghost triplet enumeration for svd); bounded execution of the real code "
              "as stand-in for the Lanczos and Diagonal svd rules",
